@@ -23,7 +23,8 @@
    "if (index == 0)").  Old = the code before 909ac4d (links[] closed at EVERY close of the linking file), kept so that the
    theorems of Properties_C17.v that end in _old_refuted keep documenting, machine-checked, why it was changed; the check
    runs the Cur variant against the library.  Likewise MCur = cg_open since def473d (a failure behind cgio_open_file
-   releases the cgio file and the table entry), MOld = cg_open before.
+   releases the cgio file and the table entry) and cg_close / cg_open since ecfdd66 (file_number_offset += n_cgns_files),
+   MOld = both before (nothing undone; file_number_offset = n_cgns_files).
    Error codes: 0 stands for NO_ERROR (-1 in ADF.h); the others are the ADF.h numbers. *)
 From Coq Require Import Arith List Bool Lia.
 From CgnsV Require Import Fuel ListX.
@@ -348,12 +349,17 @@ Inductive ooutcome :=
 
 Inductive mvariant := MOld | MCur.
 
+(* when the last file closes: MCur (since /repo ecfdd66)  file_number_offset += n_cgns_files;  numbers are never issued again.
+   MOld (before)  file_number_offset = n_cgns_files;  an ASSIGNMENT: numbers came back from the third generation on. *)
+Definition next_offset (v : mvariant) (m : mll) : nat :=
+  match v with MOld => length (files m) | MCur => foffset m + length (files m) end.
+
 (* the tail of cg_close after cgio_close_file succeeded *)
-Definition mll_release (m : mll) (i : nat) (h : nat) : mll :=
+Definition mll_release (v : mvariant) (m : mll) (i : nat) (h : nat) : mll :=
   let n1 := n_open m - 1 in
   let fs := upd (files m) i None in
   if Nat.eqb n1 0
-  then mkmll 0 [] 0 (length (files m)) (rem1 h (held m)) (nexth m)        (* file_number_offset = n_cgns_files *)
+  then mkmll 0 [] 0 (next_offset v m) (rem1 h (held m)) (nexth m)
   else mkmll n1 fs (fsize m) (foffset m) (rem1 h (held m)) (nexth m).
 
 Definition cg_open (v : mvariant) (m : mll) (oc : ooutcome) : mll * option nat :=
@@ -366,18 +372,18 @@ Definition cg_open (v : mvariant) (m : mll) (oc : ooutcome) : mll * option nat :
     let fn := length (files m1) + foffset m1 in
     match oc, v with
     | OSuccess, _ => (m1, Some fn)
-    | _, MOld => (m1, None)                                           (* before def473d: return CG_ERROR; nothing undone *)
-    | _, MCur => (mll_release m1 (length (files m)) h, None)             (* since def473d: released as cg_close does *)
+    | _, MOld => (m1, None)                                     (* before def473d: return CG_ERROR; nothing undone *)
+    | _, MCur => (mll_release MCur m1 (length (files m)) h, None)     (* since def473d: released as cg_close does *)
     end
   end.
 
 (* close_ok = cgio_close_file / cgio_compress_file succeeds *)
-Definition cg_close (m : mll) (fn : nat) (close_ok : bool) : mll * bool :=
+Definition cg_close (v : mvariant) (m : mll) (fn : nat) (close_ok : bool) : mll * bool :=
   let filenum := fn - foffset m in
   if (fn <=? foffset m) || (length (files m) <? filenum) then (m, false) else
   match nth (filenum - 1) (files m) None with
   | None => (m, false)                                                     (* CG_MODE_CLOSED *)
-  | Some h => if close_ok then (mll_release m (filenum - 1) h, true) else (m, false)
+  | Some h => if close_ok then (mll_release v m (filenum - 1) h, true) else (m, false)
   end.
 
 Inductive mop := MOpen (oc : ooutcome) | MClose (fn : nat) (close_ok : bool).
@@ -386,7 +392,7 @@ Definition mstep (v : mvariant) (m : mll) (pend : list nat) (o : mop) : mll * li
   match o with
   | MOpen oc => let '(m1, r) := cg_open v m oc in
                 (m1, match r with Some fn => fn :: pend | None => pend end, r)
-  | MClose fn ok => let '(m1, r) := cg_close m fn ok in
+  | MClose fn ok => let '(m1, r) := cg_close v m fn ok in
                     (m1, if ok then remove_all fn pend else pend, if r then Some 0 else None)
   end.
 
